@@ -9,6 +9,7 @@ package main
 //
 // pf = <src>/<kp>/<val>:
 //   src  e<j>r<k> existence proof of item j in store version k | a<j>r<k> absence proof of item j's key in version k |
+//        e<j>p1 existence proof of item j (5 or 6) in the PRIVATE store p1, a state nobody signed (header app hash p1) |
 //        x bytes that do not decode as a merkle.Proof
 //   kp   = the key path of the src item | k<j> the key path of item j | - empty
 //   val  v<j> the message bytes of item j | ! Extra bytes that do not decode as a CosmosProofValue
@@ -65,11 +66,18 @@ type tmItem struct {
 	stored  []byte // what the chain stores under key (nil: never stored)
 	since   int    // first version that holds it
 	keyPath string
+	// the same message in the PRIVATE store p1 (a state no validator of the chain ever committed)
+	pkey     []byte
+	pstored  []byte
+	pkeyPath string
 }
 
 type tmStoreT struct {
 	ms    *rootmulti.Store
 	keys  map[string]*sdk.KVStoreKey
+	pms   *rootmulti.Store // private store: one version, holds items 5 and 6
+	pkeys map[string]*sdk.KVStoreKey
+	proot []byte
 	roots map[int][]byte
 	items map[string]map[int]*tmItem // router -> item id -> item
 }
@@ -153,8 +161,15 @@ func tmStore() *tmStoreT {
 			}
 			it := &tmItem{store: "s", key: msg[3:], value: msg, stored: nil, since: 0, keyPath: string(msg)}
 			st.items["cosmos"][j] = it
-			st.items["okex"][j] = &tmItem{store: "evm", key: msg[3:], value: msg, keyPath: tmKeyPath("evm", msg[3:])}
-			st.items["heimdall"][j] = &tmItem{store: "bor", key: msg[3:], value: msg, keyPath: tmKeyPath("bor", msg[3:])}
+			it.pkey = []byte(fmt.Sprintf("ccm-request-%d", j))
+			it.pstored, it.pkeyPath = msg, tmKeyPath("s", it.pkey)
+			ek := tmEvmKey(tmCCMC, j)
+			st.items["okex"][j] = &tmItem{store: "evm", key: msg[3:], value: msg, keyPath: tmKeyPath("evm", msg[3:]),
+				pkey: ek, pstored: ethcrypto.Keccak256(msg), pkeyPath: tmKeyPath("evm", ek)}
+			sp := tmSpan(j, true)
+			sk := []byte(fmt.Sprintf("span-%d", j))
+			st.items["heimdall"][j] = &tmItem{store: "bor", key: sk, value: sp, keyPath: tmKeyPath("bor", sk),
+				pkey: sk, pstored: sp, pkeyPath: tmKeyPath("bor", sk)}
 		}
 		m7 := tmMsg([]byte("source-tx-hash-7"), 7)
 		add("okex", 7, "evm", tmEvmKey(other, 7), m7, ethcrypto.Keccak256(m7), 1)
@@ -177,6 +192,25 @@ func tmStore() *tmStoreT {
 			cid := ms.Commit()
 			st.roots[ver] = cid.Hash
 		}
+		// the private store
+		pms := rootmulti.NewStore(dbm.NewMemDB())
+		pms.SetPruning(storetypes.PruneNothing)
+		pkeys := map[string]*sdk.KVStoreKey{}
+		for _, n := range []string{"s", "evm", "bor", "acc"} {
+			pkeys[n] = sdk.NewKVStoreKey(n)
+			pms.MountStoreWithDB(pkeys[n], storetypes.StoreTypeIAVL, nil)
+		}
+		if err := pms.LoadLatestVersion(); err != nil {
+			panic(err)
+		}
+		for _, rt := range []string{"cosmos", "heimdall", "okex"} {
+			for j := 0; j <= 9; j++ {
+				if it := st.items[rt][j]; it != nil && it.pstored != nil {
+					pms.GetKVStore(pkeys[it.store]).Set(it.pkey, it.pstored)
+				}
+			}
+		}
+		st.pms, st.pkeys, st.proot = pms, pkeys, pms.Commit().Hash
 		tmStoreV = st
 	})
 	return tmStoreV
@@ -190,6 +224,9 @@ func (f *tmFam) appHash(s string) []byte {
 	if s == "r1" || s == "r2" {
 		return tmStore().roots[int(s[1]-'0')]
 	}
+	if s == "p1" {
+		return tmStore().proot
+	}
 	return nil
 }
 
@@ -197,6 +234,7 @@ type tmPf struct {
 	srcKind byte // e a x
 	srcItem int
 	srcVer  int
+	priv    bool   // e<j>p1: proof from the private store
 	kp      string // "=", "-", "k<j>"
 	val     string // "v<j>", "!"
 }
@@ -214,13 +252,14 @@ func tmParsePf(s string) (*tmPf, bool) {
 		if len(src) < 4 || (src[0] != 'e' && src[0] != 'a') {
 			return nil, false
 		}
-		r := strings.IndexByte(src, 'r')
+		r := strings.IndexAny(src, "rp")
 		if r < 0 {
 			return nil, false
 		}
+		p.priv = src[r] == 'p'
 		j, err1 := strconv.Atoi(src[1:r])
 		k, err2 := strconv.Atoi(src[r+1:])
-		if err1 != nil || err2 != nil || k < 1 || k > 2 || j < 0 || j > 9 {
+		if err1 != nil || err2 != nil || k < 1 || k > 2 || j < 0 || j > 9 || (p.priv && (k != 1 || src[0] != 'e')) {
 			return nil, false
 		}
 		p.srcKind, p.srcItem, p.srcVer = src[0], j, k
@@ -244,7 +283,20 @@ func tmParsePf(s string) (*tmPf, bool) {
 // holds: is item it committed (with exactly its stored bytes) in the state whose root is appHash? Direct read of the
 // committed store, independent of any proof.
 func (st *tmStoreT) holds(it *tmItem, appHash []byte) bool {
-	if it == nil || it.stored == nil {
+	if it == nil {
+		return false
+	}
+	if bytes.Equal(st.proot, appHash) {
+		if it.pstored == nil {
+			return false
+		}
+		cms, err := st.pms.CacheMultiStoreWithVersion(1)
+		if err != nil {
+			panic(err)
+		}
+		return bytes.Equal(cms.GetKVStore(st.pkeys[it.store]).Get(it.pkey), it.pstored)
+	}
+	if it.stored == nil {
 		return false
 	}
 	for ver, root := range st.roots {
@@ -261,7 +313,14 @@ func (st *tmStoreT) holds(it *tmItem, appHash []byte) bool {
 }
 
 // proofOf: the real proof of a src descriptor (Query with Prove on the committed multistore).
-func (st *tmStoreT) proofOf(it *tmItem, ver int) *merkle.Proof {
+func (st *tmStoreT) proofOf(it *tmItem, ver int, priv bool) *merkle.Proof {
+	if priv {
+		res := st.pms.Query(abci.RequestQuery{Path: "/" + it.store + "/key", Data: it.pkey, Prove: true, Height: 1})
+		if res.Proof == nil {
+			panic("no proof: " + res.Log)
+		}
+		return res.Proof
+	}
 	res := st.ms.Query(abci.RequestQuery{Path: "/" + it.store + "/key", Data: it.key, Prove: true, Height: int64(ver)})
 	if res.Proof == nil {
 		panic("no proof: " + res.Log)
@@ -299,10 +358,13 @@ func (f *tmFam) resolvePf(s string, marshal func(interface{}) ([]byte, error)) (
 			return nil, false
 		}
 		present := in.src.stored != nil && in.src.since <= pf.srcVer
+		if pf.priv {
+			present = in.src.pstored != nil
+		}
 		if (pf.srcKind == 'e') != present {
 			return nil, false
 		}
-		in.proof = st.proofOf(in.src, pf.srcVer)
+		in.proof = st.proofOf(in.src, pf.srcVer, pf.priv)
 		bz, err := marshal(*in.proof)
 		if err != nil {
 			panic(err)
@@ -310,6 +372,8 @@ func (f *tmFam) resolvePf(s string, marshal func(interface{}) ([]byte, error)) (
 		in.proofBz = bz
 	}
 	switch {
+	case pf.kp == "=" && pf.priv:
+		in.kp = in.src.pkeyPath
 	case pf.kp == "=":
 		in.kp = in.src.keyPath
 	case pf.kp == "-":
@@ -572,6 +636,34 @@ func (f *tmFam) genDep(r *hx.Run) {
 					}
 					return g.def(s)
 				}
+				// forged headers at (and just above) the tracked height: no / invalid signatures, or genuine signatures over a
+				// BlockID that quotes the stored block hash instead of this header's hash; app hash = root of the private store,
+				// so that the value proof is genuine against the forged app hash
+				forged := func(tag, ctl string) {
+					ord := g.order(g.cur, ver)
+					all := tmBits(1<<uint(len(ord))-1, len(ord))
+					mk := func(h int64, bid string, slots []string) string {
+						return g.def(&tmHdrSpec{ver: ver, chain: g.chain, height: h, vh: "=", nvh: "=", app: "p1", vals: g.cur,
+							cheight: h, round: 1, bid: bid, signChain: g.chain, slots: slots})
+					}
+					none := tmSlots(ord, nil, 'a')
+					wrong := make([]string, len(ord))
+					for i, v := range ord {
+						wrong[i] = fmt.Sprintf("w%d", v.key)
+					}
+					signed := tmSlots(ord, all, 'a')
+					h := g.height
+					label("forged-"+tag+"-quoting-stored-hash-unsigned", r.Do(verb+" "+mk(h, "t", none)+arg(h)+"e5p1/=/v5"))
+					label("forged-"+tag+"-quoting-stored-hash-bad-signatures", r.Do(verb+" "+mk(h, "t", wrong)+arg(h)+"e6p1/=/v6"))
+					label("forged-"+tag+"-quoting-stored-hash-signed-for-it", r.Do(verb+" "+mk(h, "t", signed)+arg(h)+"e5p1/=/v5"))
+					label("forged-"+tag+"-own-hash-unsigned", r.Do(verb+" "+mk(h, "=", none)+arg(h)+"e6p1/=/v6"))
+					label("forged-"+tag+"-own-hash-bad-signatures", r.Do(verb+" "+mk(h, "=", wrong)+arg(h)+"e5p1/=/v5"))
+					label("forged-"+tag+"-above-quoting-stored-hash", r.Do(verb+" "+mk(h+1, "t", none)+arg(h+1)+"e6p1/=/v6"))
+					label("forged-"+tag+"-nil-commit", r.Do(verb+" "+g.def(&tmHdrSpec{ver: ver, chain: g.chain, height: h, vh: "=", nvh: "=",
+						app: "p1", vals: g.cur, nilCommit: true})+arg(h)+"e5p1/=/v5"))
+					// control: the same private state under a header the tracked set really signed
+					label("signed-"+tag+"-private-app-hash", r.Do(verb+" "+mk(h, "=", signed)+arg(h)+ctl))
+				}
 				// before genesis
 				if r.Rng.Chance(1, 4) {
 					nm := mkHdr(g.height+1, "r1", -1)
@@ -628,7 +720,13 @@ func (f *tmFam) genDep(r *hx.Run) {
 				label("replay", r.Do(verb+" "+hA+a+"e0r1/=/v0"))
 				label("right-version-2", r.Do(verb+" "+hB+a+"e2r2/=/v2"))
 				label("right-other-item", r.Do(verb+" "+hB+a+"e1r2/=/v1"))
+				forged("genesis-installed", "e5p1/=/v5")
 				if rn == "heimdall" {
+					n2 := tmRandSet(r, 1+r.Rng.Intn(3))
+					hs := g.height + 1 + int64(r.Rng.Intn(3))
+					if g.note(r.Do("sync "+g.def(g.good(hs, n2))), hs, n2) {
+						forged("sync-installed", "e6p1/=/v6")
+					}
 					continue
 				}
 				// an epoch-changing header in a deposit: the info advances (also when the proof part fails afterwards)
@@ -652,8 +750,12 @@ func (f *tmFam) genDep(r *hx.Run) {
 				label("new-set-after-epoch-change", r.Do(verb+" "+mkHdr(hE, "r2", 0)+arg(hE)+"e0r2/=/v0"))
 				label("below-new-tracked-height", r.Do(verb+" "+mkHdr(hE-1, "r2", 0)+arg(hE-1)+"e0r2/=/v0"))
 				// a sync batch after deposits still works on the same info
-				s := g.good(hE+2, tmRandSet(r, 2))
-				label("sync-after-deposit", r.Do("sync "+g.def(s)))
+				n2 := tmRandSet(r, 2)
+				res = r.Do("sync " + g.def(g.good(hE+2, n2)))
+				label("sync-after-deposit", res)
+				if g.note(res, hE+2, n2) {
+					forged("sync-installed", "e6p1/=/v6")
+				}
 			}
 		}
 	}
